@@ -469,6 +469,21 @@ class History(object):
         self.writers = {}        # one writer object per format, reused by every save of the case
         self.saves = []          # judged save attempts
         self.mid = []            # oracle failures of validations in the middle of the history
+        self.docs = []           # further Documents of the case (seeded round 6: one writer, several documents)
+        self.log = []            # every write_file call: (writer key, format, model node or None, outcome)
+        self.fresh = 0
+
+    def sessions(self):
+        """the write_file calls grouped by writer object, in call order (what the model's
+        `Writer.session` is asked about); a writer with a document outside the model is left out"""
+        by, order = {}, []
+        for key, fmt, node, outcome in self.log:
+            if key not in by:
+                by[key] = {"parser": fmt, "nodes": [], "outcomes": []}
+                order.append(key)
+            by[key]["nodes"].append(node)
+            by[key]["outcomes"].append(outcome)
+        return [by[k] for k in order if all(n is not None for n in by[k]["nodes"])]
 
 
 def apply_op(op, root, bt, hist):
@@ -623,8 +638,26 @@ def apply_op(op, root, bt, hist):
             hist.mid.extend("in the middle of the history: " + f for f in judge_now(root, val.errors))
         hist.stale.append(val)
     elif kind == "save":
-        if not is_section(root):
-            hist.saves.append(hist.check.judged_save(root, op.get("fmt", "XML"), op.get("entry", "writer"), hist))
+        doc = hist.docs[op["doc"] % len(hist.docs)] if "doc" in op and hist.docs else root
+        if not is_section(doc):
+            entry = op.get("entry", "writer")
+            if entry in ("to_string", "badpath"):
+                # calls that leave their traces in the writer object but are not judged: to_string runs
+                # no validation; a path that cannot be opened fails for a reason of its own (whether the
+                # validation comes before or after opening the file is not prescribed)
+                writer = hist.check.writer_for(hist.writers, op.get("fmt", "XML"), op.get("slot"))
+                if entry == "to_string":
+                    writer.to_string(doc, **(op.get("kw") or {}))
+                else:
+                    writer.write_file(doc, os.path.join(scratch_dir(), "no_such_dir_%d" % os.getpid(), "x.out"))
+            else:
+                hist.saves.append(hist.check.judged_save(doc, op.get("fmt", "XML"), entry, hist,
+                                                         slot=op.get("slot"), kw=op.get("kw")))
+    elif kind == "newid":
+        # the public way to take a shared id apart again
+        target = prop_at(sec, op["i"]) if "i" in op else sec
+        if target is not None:
+            target.new_id()
     elif kind == "roundtrip":
         if is_section(root):
             return root
@@ -679,9 +712,14 @@ def run_history(case, root, bt, check):
     old = signal.signal(signal.SIGPROF, on_prof)
     signal.setitimer(signal.ITIMER_PROF, HISTORY_CPU_S, 0.5)      # fires again should it get lost
     try:
+        for spec in case.get("others", []):
+            hist.docs.append(build({"kind": "doc", "node": spec})[0])
         for op in case.get("ops", []):
             try:
-                root = apply_op(op, root, bt, hist)
+                if "doc" in op and op["op"] != "save" and hist.docs:
+                    apply_op(op, hist.docs[op["doc"] % len(hist.docs)], bt, hist)     # an edit of another Document
+                else:
+                    root = apply_op(op, root, bt, hist)
                 hist.applied += 1
             except Exception:
                 hist.refused += 1
@@ -2105,6 +2143,196 @@ def gen_keys_case(rng, strs):
     return case
 
 
+# ----------------------------------------------------------------------------- seeded round 6
+# The save gate is an OBJECT that is used more than once.  "Only errors block saving" was checked on
+# first writes: a writer made for the case, asked once (two saves of one case hit the same writer
+# object only when format and entry point happened to coincide, and hardly ever with a refused save
+# first and a repaired document second).  The stream below runs writer SESSIONS: a few writer objects
+# (per format and slot) and the module-level odml.save are asked again and again while the document
+# is broken (an error-rank issue: cleared type, emptied name, keep_id clones, duplicate siblings),
+# repaired, given warning-rank issues only, and while other Documents - valid and invalid ones - are
+# handed to the same writer in between.  Every single call is judged by the document of that moment
+# (the three save clauses + "a returned save has written, a refused one has not"), and the outcomes
+# per writer object are compared with the model's `Writer.session`.
+def spec_secs(doc):
+    """[(path, spec)] of every Section of a document description"""
+    out = []
+
+    def walk(sec, path):
+        out.append((path, sec))
+        for i, sub in enumerate(sec.get("subs", [])):
+            walk(sub, path + [i])
+    for i, sec in enumerate(doc["secs"]):
+        walk(sec, [i])
+    return out
+
+
+def gen_break(rng, ids, secs, n):
+    """an edit that gives the document an issue of rank error -> (operations, operations that undo it)"""
+    path, spec = rng.choice(secs)
+    parent = path[:-1]
+    props = spec.get("props", [])
+    r = rng.random()
+    if r < 0.22:
+        return ([{"op": "set", "at": path, "attr": "type", "value": rng.choice([None, None, ""])}],
+                [{"op": "set", "at": path, "attr": "type", "value": spec.get("type") or "t"}])
+    if r < 0.32:
+        return ([{"op": "set", "at": path, "attr": "name", "value": ""}],
+                [{"op": "set", "at": path, "attr": "name", "value": spec.get("name") or "named%d" % n}])
+    if r < 0.52:
+        # a keep_id clone next to the original (shared ids, with or without the shared name)
+        op = {"op": "clone", "at": path, "to": parent, "keep_id": True, "children": rng.random() < 0.7,
+              "how": "append"}
+        if rng.random() < 0.5:
+            op["rename"] = "kc%d" % n
+        undo = [{"op": "remove", "at": parent + [-1]}]
+        if not op["children"] and "rename" in op and rng.random() < 0.5:
+            undo = [{"op": "newid", "at": parent + [-1]}]          # a new id instead of removing the copy
+        return [op], undo
+    if r < 0.62:
+        # a copy with a fresh id but the same name and type
+        op = {"op": "clone", "at": path, "to": parent, "keep_id": False, "children": rng.random() < 0.5,
+              "how": "append"}
+        undo = rng.choice([[{"op": "remove", "at": parent + [-1]}],
+                           [{"op": "set", "at": parent + [-1], "attr": "name", "value": "copy%d" % n}],
+                           [{"op": "set", "at": parent + [-1], "attr": "type", "value": "copied/%d" % n}]])
+        return [op], undo
+    if r < 0.78 and props:
+        op = {"op": "pclone", "at": path, "i": rng.randrange(len(props)), "to": path,
+              "keep_id": rng.random() < 0.6, "how": "append"}
+        if op["keep_id"] and rng.random() < 0.5:
+            op["rename"] = "pc%d" % n
+        undo = [{"op": "premove", "at": path, "i": -1}]
+        if op["keep_id"] and "rename" in op and rng.random() < 0.4:
+            undo = [{"op": "newid", "at": path, "i": -1}]
+        elif not op["keep_id"] and rng.random() < 0.4:
+            undo = [{"op": "pset", "at": path, "i": -1, "attr": "name", "value": "pcopy%d" % n}]
+        return [op], undo
+    if r < 0.88 and props:
+        twin = {"id": ids(), "name": rng.choice(props)["name"], "dtype": "int", "values": [{"i": 1}], "card": None}
+        return ([{"op": "add_prop", "at": path, "prop": twin}], [{"op": "premove", "at": path, "i": -1}])
+    twin = {"id": ids(), "name": spec.get("name"), "type": spec.get("type"), "sc": None, "pc": None,
+            "props": [], "subs": []}
+    return ([{"op": "add_sec", "at": parent, "sec": twin}],
+            rng.choice([[{"op": "remove", "at": parent + [-1]}],
+                        [{"op": "set", "at": parent + [-1], "attr": "type", "value": "twin/%d" % n}]]))
+
+
+def gen_warn(rng, ids, secs, n):
+    """an edit that gives the document an issue of rank warning only"""
+    path, _spec = rng.choice(secs)
+    r = rng.random()
+    if r < 0.25:
+        return {"op": "set", "at": path, "attr": "type", "value": rng.choice(["n.s.", "n.s.", "t", "u"])}
+    if r < 0.50:
+        return {"op": "set", "at": path, "attr": rng.choice(["sc", "pc"]),
+                "value": rng.choice([[7, None], [None, 0], [10, 12], None])}
+    if r < 0.80:
+        return {"op": "add_prop", "at": path,
+                "prop": {"id": ids(), "name": "w%d" % n, "dtype": rng.choice(["int", "date", "boolean"]),
+                         "values": [{"s": "abc"}], "raw": True, "card": rng.choice([None, [2, None]]),
+                         "dep": rng.choice(["zz", "w0", None])}}
+    return {"op": "set", "at": path, "attr": "name", "value": "=id"}
+
+
+WRITER_KW = {"XML": [None, None, None, {"local_style": True}, {"local_style": False}],
+             "RDF": [None, None, {"rdf_format": "turtle"}, {"rdf_format": "xml"}, {"rdf_format": "n3"}],
+             "JSON": [None], "YAML": [None]}
+
+
+def gen_session_case(rng, strs):
+    dirt = rng.choice([0.0, 0.0, 0.0, 0.0, 0.05])
+    ids = id_source(rng, 0.0)
+    secs = []
+    for _ in range(rng.choice([1, 1, 2, 3])):
+        secs.append(gen_sec(rng, ids, rng.choice([0, 1, 1, 2]), strs, dirt, [x["name"] for x in secs]))
+    doc = {"id": ids(), "secs": secs}
+    # further Documents handed to the same writers: a small valid one, a small invalid one, a random one
+    others = []
+    for _ in range(rng.choice([0, 0, 1, 1, 2])):
+        oid = id_source(rng, 0.0)           # (the same id tokens as the main Document: ids are per Document)
+        r = rng.random()
+        if r < 0.4:
+            osecs = [{"id": oid(), "name": "s", "type": "t", "sc": None, "pc": None, "props": [], "subs": []}]
+        elif r < 0.7:
+            bad = {"id": oid(), "name": "s", "type": rng.choice([None, "", "t"]), "sc": None, "pc": None,
+                   "props": [], "subs": []}
+            osecs = [bad] if not bad["type"] else [bad, dict(bad, id=oid())]
+        else:
+            osecs = [gen_sec(rng, oid, rng.choice([0, 1]), strs, rng.choice([0.0, 0.0, 0.3]))]
+        others.append({"id": oid(), "secs": osecs})
+    targets = [(None, spec_secs(doc))] + [(j, spec_secs(o)) for j, o in enumerate(others)]
+    targets = [t for t in targets if t[1]]
+    primary = (rng.choice(SAVE_FORMATS), 0)
+    ops, pending, n = [], [], 0
+
+    def write():
+        op = {"op": "save"}
+        r = rng.random()
+        if r < 0.70:
+            op.update({"fmt": primary[0], "slot": primary[1], "entry": "writer"})
+        elif r < 0.85:
+            op.update({"fmt": rng.choice(SAVE_FORMATS), "slot": rng.randrange(2), "entry": "writer"})
+        else:
+            op.update({"fmt": rng.choice(SAVE_FORMATS), "entry": "odml.save"})
+        kw = rng.choice(WRITER_KW[op["fmt"]])
+        if kw:
+            op["kw"] = kw
+        if others and rng.random() < 0.25:
+            op["doc"] = rng.randrange(len(others))
+        return op
+
+    def addressed(op, j):
+        if j is not None:
+            op = dict(op, doc=j)
+        return op
+
+    for _ in range(rng.choice([3, 4, 5, 6, 8, 10, 12, 12, 30])):       # (30: ten and more calls of one writer)
+        r = rng.random()
+        n += 1
+        if r < 0.26 and targets:
+            j, tsecs = rng.choice(targets) if rng.random() < 0.2 else targets[0]
+            brk, undo = gen_break(rng, ids, tsecs, n)
+            ops.extend(addressed(o, j) for o in brk)
+            pending.append([addressed(o, j) for o in undo])
+        elif r < 0.46 and pending:
+            # repair: everything that is broken (latest first), or the latest break only
+            for _k in range(len(pending) if rng.random() < 0.7 else 1):
+                ops.extend(pending.pop())
+        elif r < 0.54 and targets:
+            j, tsecs = rng.choice(targets) if rng.random() < 0.2 else targets[0]
+            ops.append(addressed(gen_warn(rng, ids, tsecs, n), j))
+        elif r < 0.58:
+            ops.append({"op": "save", "fmt": primary[0], "slot": primary[1],
+                        "entry": rng.choice(["to_string", "to_string", "badpath"])})
+        elif r < 0.62:
+            ops.append({"op": "validate", "how": rng.choice(["new", "method", "deferred"]), "judge": rng.random() < 0.5})
+        elif r < 0.65:
+            # another library feature in the middle of the session (a link / include / merge / clone;
+            # whatever it does to the document, the next write is judged by the document as it is then)
+            ops.append(gen_feature_op(rng, ids))
+        elif r < 0.67:
+            # the writers go on with the Document a reader made of the present one
+            ops.append({"op": "roundtrip", "fmt": rng.choice(["XML", "JSON", "YAML"]),
+                        "entry": rng.choice(["string", "file"])})
+        else:
+            ops.append(write())
+    if pending and rng.random() < 0.6:
+        while pending:
+            ops.extend(pending.pop())
+    ops.append(write())
+    if rng.random() < 0.5:
+        last = dict(ops[-1])
+        last.pop("doc", None)
+        ops.append(dict(last, fmt=primary[0], slot=primary[1], entry="writer"))
+        if ops[-1]["fmt"] != last.get("fmt"):
+            ops[-1].pop("kw", None)
+    case = {"stream": "wsess", "kind": "doc", "node": doc, "ops": ops}
+    if others:
+        case["others"] = others
+    return case
+
+
 # ----------------------------------------------------------------------------- the check
 class C08(fw.Check):
     prop = "C08"
@@ -2119,10 +2347,12 @@ class C08(fw.Check):
         "card_report_is_outside", "unique_name_type_sound_complete",
         "unique_prop_names_sound_complete", "unique_ids_sound_complete",
         "unique_ids_only_documents", "id_entries_cover", "rank_by_id", "rank_never_confused", "blocks_save_iff",
-        "every_issue_accounted"]]
+        "every_issue_accounted",
+        "write_outcome_stateless", "write_session_pointwise", "save_outcome_refused_iff",
+        "save_refused_iff_after_any_history", "save_written_iff_after_any_history"]]
     trusted_base = [
         "Lean 4.33.0 kernel; axioms propext, Classical.choice, Quot.sound only (audited per theorem)",
-        "hand-written model lean/OdmlModel/Model/Valid.lean (+ Card.lean), tied to /repo by this run",
+        "hand-written model lean/OdmlModel/Model/Valid.lean (+ Card.lean, ValidWriter.lean), tied to /repo by this run",
         "harness/extract_tables.py (Validation._handlers, IssueID, format._args regenerated into Lean)",
         "Driver/*.lean JSON glue; harness/framework.py, harness/c08.py",
     ]
@@ -2167,6 +2397,13 @@ class C08(fw.Check):
             "ids (one character apart) of the same kinds; names that only look like the own id; mixed with real "
             "duplicates, below the Document, a Section, a stand-alone Section, beyond the 10th child, made by renames / "
             "clones / readers in a history, validated through every entry point and saved in every format. "
+            "Writer sessions (stream wsess): a few ODMLWriter objects per case (format x slot, with and without "
+            "writer options) and odml.save asked 3..13 times while the document is broken (cleared type, emptied "
+            "name, keep_id clones of Sections and Properties, duplicate siblings), repaired (type set, copy removed "
+            "/ renamed / given a new id), given warnings only, and while other valid and invalid Documents are "
+            "handed to the same writer; to_string calls and writes to a path that cannot be opened in between; "
+            "every call judged by the document of that moment, a returned save has written a file and a refused "
+            "one has not; the outcomes per writer object compared with the model's Writer.session. "
             "Non-trivial = at least one issue reported; distinct = distinct canonical JSON of the case.")
 
     # -- generation ----------------------------------------------------------
@@ -2282,6 +2519,9 @@ class C08(fw.Check):
         # ---- stream added after the fifth seeded round (appended, the ones above are unchanged)
         for _ in range(2500 if quick else 40000):
             cases.append(gen_keys_case(rng, STRS))
+        # ---- stream added after the sixth seeded round (appended, the ones above are unchanged)
+        for _ in range(1500 if quick else 30000):
+            cases.append(gen_session_case(rng, STRS))
         return cases
 
     @staticmethod
@@ -2343,6 +2583,9 @@ class C08(fw.Check):
             obs["save"] = rec["outcome"]
             obs["save_errors_expected"] = rec["errors_expected"]
             obs["save_fmt"] = rec["fmt"]
+            obs["save_file"] = rec["file"]
+        if hist is not None and hist.log:
+            obs["sessions"] = hist.sessions()
         return obs
 
     def observe(self, target, stale):
@@ -2439,7 +2682,7 @@ class C08(fw.Check):
                 out.append((reportable[0], 200 if code == "ids" else code))
         return out
 
-    def judged_save(self, doc, fmt, entry, hist):
+    def judged_save(self, doc, fmt, entry, hist, slot=None, kw=None):
         """one save attempt together with what the property says about the document at that moment"""
         from odml.validation import Validation
         kind, snap, refs = snapshot(doc)
@@ -2448,7 +2691,8 @@ class C08(fw.Check):
             issues, crash = issue_list(Validation(doc).errors, refs), None
         except Exception as exc:
             issues, crash = [], fw.exc_name(exc)
-        outcome = self.try_save(doc, fmt, entry, hist.writers if hist is not None else None)
+        info = {}
+        outcome = self.try_save(doc, fmt, entry, hist.writers if hist is not None else None, slot, kw, info)
         errors_expected = any(code in (101, 200, 201, 202, 203) for (_r, code) in self.must_codes_ex(ex))
         error_reported = any(i[2] == ERR for i in issues)
         if outcome == "ParserException" and not errors_expected and not error_reported:
@@ -2460,13 +2704,41 @@ class C08(fw.Check):
                 ODMLWriter(fmt).to_string(doc)
             except Exception as exc:
                 outcome = "other:the %s backend cannot write this document (%s)" % (fmt, fw.exc_name(exc))
+        if hist is not None:
+            # the call as the model's writer session sees it (seeded round 6)
+            try:
+                node = model_node(kind, snap)
+            except Unsupported:
+                node = None
+            if entry == "odml.save":
+                hist.fresh += 1
+                wkey = "fresh#%d" % hist.fresh
+            else:
+                wkey = self.writer_key(fmt, slot)
+            seen = "raised" if crash is not None else \
+                {"saved": "written", "ParserException": "refused"}.get(outcome)
+            hist.log.append((wkey, fmt, node, seen))
         return {"fmt": fmt, "entry": entry, "outcome": outcome, "crash": crash,
                 "errors_expected": errors_expected, "error_reported": error_reported,
-                "judged_clean": not judge(ex, issues, crash)}
+                "judged_clean": not judge(ex, issues, crash), "file": info.get("file")}
 
     @staticmethod
-    def try_save(doc, fmt="XML", entry="writer", writers=None):
+    def writer_key(fmt, slot):
+        return fmt if slot is None else "%s#%s" % (fmt, slot)
+
+    @staticmethod
+    def writer_for(writers, fmt, slot):
+        """the writer object of that format (and slot) of this case: made once, then reused"""
         from odml.tools.odmlparser import ODMLWriter
+        if writers is None:
+            return ODMLWriter(fmt)
+        key = C08.writer_key(fmt, slot)
+        if key not in writers:
+            writers[key] = ODMLWriter(fmt)
+        return writers[key]
+
+    @staticmethod
+    def try_save(doc, fmt="XML", entry="writer", writers=None, slot=None, kw=None, info=None):
         try:
             from odml.tools.parser_utils import ParserException
         except ImportError:
@@ -2477,17 +2749,22 @@ class C08(fw.Check):
             try:
                 if entry == "odml.save":
                     import odml
-                    odml.save(doc, path, fmt)
+                    odml.save(doc, path, fmt, **(kw or {}))
                 else:
                     # the same writer object serves every save of one case
-                    writer = ODMLWriter(fmt) if writers is None else writers.setdefault(fmt, ODMLWriter(fmt))
-                    writer.write_file(doc, path)
+                    C08.writer_for(writers, fmt, slot).write_file(doc, path, **(kw or {}))
                 return "saved"
             except Exception as exc:
                 if ParserException is not None and isinstance(exc, ParserException):
                     return "ParserException"
                 return "other:" + fw.exc_name(exc)
         finally:
+            if info is not None:
+                # was anything written?  (every attempt has a path of its own)
+                try:
+                    info["file"] = os.path.isfile(path) and os.path.getsize(path) > 0
+                except OSError:
+                    info["file"] = None
             try:
                 os.remove(path)
             except OSError:
@@ -2505,6 +2782,10 @@ class C08(fw.Check):
         pre = obs.get("pre")
         if pre and "node" in pre:
             plan.append(("pre", {"p": "C08", "op": "validate", "kind": pre["kind"], "node": pre["node"]}))
+        # one request per writer object of the case: the documents it was handed, in call order
+        for k, sess in enumerate(obs.get("sessions", [])):
+            plan.append(("session%d" % k, {"p": "C08", "op": "session", "parser": sess["parser"],
+                                           "nodes": sess["nodes"]}))
         return plan
 
     def model_requests(self, case, obs):
@@ -2540,6 +2821,15 @@ class C08(fw.Check):
         if "pre" in by:
             out += self.compare_validation(by["pre"], obs["pre"]["issues"], obs["pre"]["crash"],
                                            "before the history: ")
+        for k, sess in enumerate(obs.get("sessions", [])):
+            ans = by.get("session%d" % k)
+            if ans is None:
+                continue
+            # an outcome of the backend's own (content it cannot write) is None here: not compared
+            diff = [(i, m, s) for i, (m, s) in enumerate(zip(ans, sess["outcomes"])) if s is not None and m != s]
+            if diff or len(ans) != len(sess["outcomes"]):
+                out.append("writer session (%s, %d calls): (call, model, implementation) differ: %s"
+                           % (sess["parser"], len(sess["outcomes"]), diff[:4]))
         return out
 
     # -- oracle --------------------------------------------------------------
@@ -2558,6 +2848,7 @@ class C08(fw.Check):
             if not obs["save_errors_expected"] and obs["save"] == "ParserException" and \
                     not [f for f in out]:
                 out.append("document whose only issues are warnings was refused by save")
+            out += self.file_clauses("", obs["save"], obs.get("save_file"))
         # saves in the middle of a history: the same three clauses, over the document of that moment
         for k, rec in enumerate(obs.get("saves", [])):
             if rec["crash"] is not None:
@@ -2569,7 +2860,20 @@ class C08(fw.Check):
                 out.append(where + "document without any error-rank issue was refused by save")
             if not rec["errors_expected"] and rec["outcome"] == "ParserException" and rec["judged_clean"]:
                 out.append(where + "document whose only issues are warnings was refused by save")
+            out += self.file_clauses(where, rec["outcome"], rec.get("file"))
         return out
+
+    @staticmethod
+    def file_clauses(where, outcome, wrote):
+        """"block saving" taken at its word: a save that returns has written something, a refused one
+        has written nothing (every attempt goes to a path of its own)"""
+        if wrote is None:
+            return []
+        if outcome == "saved" and not wrote:
+            return [where + "the save returned without an exception but no file was written"]
+        if outcome == "ParserException" and wrote:
+            return [where + "the save was refused but a file was written all the same"]
+        return []
 
     def tag(self, case, obs):
         st = case["stream"]
@@ -2588,6 +2892,13 @@ class C08(fw.Check):
             what = "+".join(k for k in ("link", "include", "merged") if feat.get(k)) or "plain"
             view = obs.get("kind")
             return ("ops:%s:%s:%s" % (what, view, "issues" if any_issue else "clean"), any_issue)
+        if st == "wsess":
+            outs = [o for sess_ in obs.get("sessions", []) for o in sess_["outcomes"]]
+            recs = obs.get("saves", [])
+            seq = "".join({"ParserException": "R", "saved": "W"}.get(r["outcome"], "o") for r in recs)
+            what = "refused-then-written" if "RW" in seq else "written-then-refused" if "WR" in seq else \
+                "all-written" if seq and set(seq) == {"W"} else "all-refused" if seq and set(seq) == {"R"} else "mixed"
+            return ("wsess:%s" % what, bool(outs) or any_issue)
         if st in ("vals", "keys"):
             return ("%s:%s:%s" % (st, obs.get("kind"), "issues" if any_issue else "clean"), any_issue)
         if st in ("doc", "sub", "sec", "shape", "save2"):
